@@ -124,7 +124,8 @@ void LibSVMParser<IndexType, DType>::ParseBlock(
     }
     if (p != lend && (strncmp(p, "qid:", 4) == 0)) {
       p += 4;
-      qid = static_cast<uint64_t>(atoll(p));
+      // atoll() skips white space, end-of-line characters included: convert only if a number follows
+      qid = (p != lend && isdigitchars(*p)) ? static_cast<uint64_t>(atoll(p)) : 0;
       while (p != lend && isdigitchars(*p)) {
         ++p;
       }
